@@ -44,6 +44,13 @@ def run(tier, seed, factor=1):
                 "distinct by (rule, form)")
     N = common.scale(tier, 6, 8)
     outs = rulecheck.collect(seed * 31 + 9, common.scale(tier, 500, 6000) * factor, N)
+    # unions whose children have equally many statistics but different parameter maps (every other child lists its statistics in
+    # the opposite order): the same parameter tuple means different things on different children
+    rulecheck.EXTRA = "altnames"
+    try:
+        outs += rulecheck.collect(seed * 43 + 5, common.scale(tier, 160, 2000) * factor, N)
+    finally:
+        rulecheck.EXTRA = None
     lines = [o["line"] for o in outs if "line" in o and "exc" not in o]
     lean = common.run_driver("Spec", "\n".join(lines) + "\n") if lines else []
     assert len(lean) == len(lines)
